@@ -105,6 +105,9 @@ fn main() {
     };
 
     util::install_panic_hook();
+    if std::env::var("FDMON_LOG").map(|v| v != "off").unwrap_or(true) {
+        util::install_log_sink();
+    }
     let _ = util::KNOWN.set(load_known(&ctx));
     let start = Instant::now();
 
@@ -276,6 +279,7 @@ fn finish(ctx: &Ctx, outcome: Outcome, wall: f64, write_evidence: bool) -> i32 {
             ("known_findings_matched".into(), J::Int(known_hits.len() as i128)),
             ("verdict".into(), J::s(verdict)),
             ("repo_under_test".into(), J::s(std::env::var("FDMON_REPO_DESC").unwrap_or_else(|_| "unknown".into()))),
+            ("logging".into(), J::s(if util::logging_on() { format!("trace-level sink installed: {} records formatted", util::LOG_RECORDS.load(std::sync::atomic::Ordering::Relaxed)) } else { "off (FDMON_LOG=off)".to_string() })),
         ]);
         let dir = format!("{}/evidence", out_dir);
         let _ = std::fs::create_dir_all(&dir);
